@@ -61,10 +61,17 @@ func genC18(t *rapid.T) C18Case {
 		case "full":
 			s.A = rapid.SampledFrom([]float64{0, 1, -2.5, 1e-3, 7}).Draw(t, "value")
 		case "uniform", "randu":
-			s.A = rapid.SampledFrom([]float64{-1, 0, -0.05, 2, -100, 0.5, 1e200, -1e-200}).Draw(t, "lower")
+			s.A = rapid.SampledFrom([]float64{-1, 0, -0.05, 2, -100, 0.5, 1e200, -1e-200, -1e308, 1e308, -1.7e308}).Draw(t, "lower")
 			s.B = s.A + rapid.SampledFrom([]float64{0.1, 1, 2, 50, 1e-3}).Draw(t, "width")
-			if s.A == 1e200 {
+			switch s.A {
+			case 1e200:
 				s.B = 3e200
+			case -1e308:
+				s.B = 1e308 // the width exceeds the float64 range
+			case 1e308:
+				s.B = 1.5e308 // the sum of the bounds does
+			case -1.7e308:
+				s.B = -1e308
 			}
 		case "normal", "randn":
 			s.A = rapid.SampledFrom([]float64{0, 1, -3, 100}).Draw(t, "mean")
@@ -303,7 +310,7 @@ func checkC18(c C18Case) *Failure {
 		// (v-mu)/sigma against N(0,1), so that extreme but valid parameters cannot overflow
 		std := func(v float64) float64 {
 			if uniform {
-				return (v - lo) / (hi - lo)
+				return (v/2 - lo/2) / (hi/2 - lo/2) // hi - lo itself may exceed the float64 range
 			}
 			return (v - mu) / sigma
 		}
@@ -317,16 +324,19 @@ func checkC18(c C18Case) *Failure {
 					return failf("%s produced %v outside [%v, %v)", s.Kind, v, lo, hi)
 				}
 			}
-			if ci > 0 && len(cv) >= 2 {
-				same := true
-				for j := range cv {
-					if cv[j] != calls[k][ci-1][j] {
-						same = false
-						break
+			if len(cv) >= 2 {
+				// no call returns the values of ANY earlier call on this object (continuous draws)
+				for pj := 0; pj < ci; pj++ {
+					same := true
+					for j := range cv {
+						if cv[j] != calls[k][pj][j] {
+							same = false
+							break
+						}
 					}
-				}
-				if same {
-					return failf("%s: two consecutive calls with shape %v returned identical values (draws are not fresh)", s.Kind, s.Shape)
+					if same {
+						return failf("%s: calls %d and %d on one object with shape %v returned identical values (draws are not fresh)", s.Kind, pj+1, ci+1, s.Shape)
+					}
 				}
 			}
 			for _, v := range cv {
